@@ -714,6 +714,48 @@ theorem blockprog_hook_order_refines_loose {h : HSys} {hs es : List Ev} (hr : HR
 theorem blockprog_run_is_hook_run {σ : Sys} {es : List Ev} (h : Reach σ es) :
     HReach ⟨σ, [], fun _ => false⟩ es es := reach_lifts h
 
+/-- a hook-level schedule given as a list of actions (`hexec`, executable) is a hook-level run -/
+theorem blockprog_hexec_is_hook_run {acts : List HAct} {h : HSys} {hs es : List Ev}
+    (hx : hexec {} acts = some (h, hs, es)) : HReach h hs es := by
+  simpa using hexec_sound HReach.init hx
+
+/-- the schedule in which the two orders differ: waiter 1 sleeps on a; push 2 reports and sends; 1 receives; before 1
+    reports its wake, push 3 reports and sends (into the buffer 1 has just emptied); 1 reports; another client empties the
+    list; 1 looks, finds nothing, sleeps, receives the second wake-up, reports it -/
+def looseSchedule : List HAct :=
+  [.other 1 { call := .bpop ["a"] 0 }] ++ List.replicate 7 (.other 1 {}) ++
+  [.other 2 { call := .push "a" 1 }] ++ List.replicate 3 (.other 2 {}) ++ [.hookNotify 2, .send 2, .recv 1] ++
+  List.replicate 3 (.other 2 {}) ++
+  [.other 3 { call := .push "a" 1 }] ++ List.replicate 3 (.other 3 {}) ++ [.hookNotify 3, .send 3, .hookWake 1] ++
+  List.replicate 3 (.other 3 {}) ++ [.other 9 { call := .env "a" 0 false }] ++
+  List.replicate 4 (.other 1 {}) ++ [.recv 1, .hookWake 1]
+
+example : (hexec {} looseSchedule).map (fun r => (r.2.1, r.2.2)) = some (
+    -- hook order
+    [.reg 1 "a", .try_ 1 "a" false, .block 1 false, .notify 1 "a", .notify 1 "a", .wake 1,
+     .try_ 1 "a" false, .block 1 false, .wake 1],
+    -- operation order
+    [.reg 1 "a", .try_ 1 "a" false, .block 1 false, .notify 1 "a", .wake 1, .notify 1 "a",
+     .try_ 1 "a" false, .block 1 false, .wake 1]) := by decide
+
+/-- `stepLoose` IS NEEDED for the hook order: there is a hook-level run of the program whose hook-call sequence the
+    precise semantics `step` rejects (and `stepLoose`, by the theorem above, accepts) -/
+theorem blockprog_hook_order_needs_loose :
+    ∃ h hs es, HReach h hs es ∧ runAll [] hs = none ∧ (runAllLoose [] hs).isSome = true ∧
+      (runAll [] es).isSome = true := by
+  have hd : (hexec {} looseSchedule).map (fun r => (r.2.1, r.2.2)) = some (
+      [.reg 1 "a", .try_ 1 "a" false, .block 1 false, .notify 1 "a", .notify 1 "a", .wake 1,
+       .try_ 1 "a" false, .block 1 false, .wake 1],
+      [.reg 1 "a", .try_ 1 "a" false, .block 1 false, .notify 1 "a", .wake 1, .notify 1 "a",
+       .try_ 1 "a" false, .block 1 false, .wake 1]) := by decide
+  cases hx : hexec {} looseSchedule with
+  | none => simp [hx] at hd
+  | some r =>
+    obtain ⟨h, hs, es⟩ := r
+    simp only [hx, Option.map_some, Option.some.injEq, Prod.mk.injEq] at hd
+    obtain ⟨rfl, rfl⟩ := hd
+    exact ⟨h, _, _, blockprog_hexec_is_hook_run hx, by decide, by decide, by decide⟩
+
 /-! ### scenarios of the program model (non-vacuity: the hypotheses above are met by real schedules) -/
 
 /-- `n` silent-or-not steps of thread t with the default choice -/
